@@ -102,4 +102,95 @@ theorem slice_csv (ver : UInt8) (s l : Nat) (bs1 bs2 : List CB.EBlock) :
       List.zipWith (· ++ ·) ((csvFiles ver s l bs1).map (·.2)) ((csvFiles ver s l bs2).map (·.2)) := by
   simp [csvFiles]
 
+
+/-- the rows of the four csv files for a list of delivered blocks (names aside) -/
+def csvRows (ver : UInt8) (bs : List CB.EBlock) : List (List String) := (csvFiles ver 0 0 bs).map (·.2)
+
+theorem csvRows_files (ver : UInt8) (s l : Nat) (bs : List CB.EBlock) : (csvFiles ver s l bs).map (·.2) = csvRows ver bs := by
+  simp [csvRows, csvFiles]
+
+/-- **whole-run slice law (csvdump).**  One data directory, two runs of csvdump: `o` over a range and `w` over the whole chain
+    (`w.start = 0`).  If both indexes load and every height of the whole chain is stored (in the sense of `Run.Stored`, for the
+    index each run loads), both runs exit 0 and each of the four files of the whole-chain run is
+    `rows of the heights below the range ++ the file of the ranged run ++ rows of the heights above it` -/
+theorem range_run_is_slice (o w : Run.Opts) (key : Option W.Bytes) (kvs : List (W.Bytes × W.Bytes)) (files : List Run.BlkFile)
+    (coin : Run.Coin) (ld lw : Run.Loaded) (hco : Run.coinOf o.coin = some coin) (hcw : Run.coinOf w.coin = some coin)
+    (hldo : Run.loadIndex o kvs = .ok ld) (hldw : Run.loadIndex w kvs = .ok lw)
+    (hkey : key ≠ some []) (sz : Nat → Nat) (blk : Nat → W.Block)
+    (hso : ∀ k, o.start ≤ k → k < o.start + (ld.maxH + 1 - o.start) →
+      Run.Stored coin key (files.filterMap fun f => (Run.parseBlkIndex f.name).map fun n => (n, f)) ld.trimmed k (sz k) (blk k) ∧
+      (o.verify = true → Run.verifyBlock coin ld.trimmed (blk k).toR k = .ok ()))
+    (hsw : ∀ k, w.start ≤ k → k < w.start + (lw.maxH + 1 - w.start) →
+      Run.Stored coin key (files.filterMap fun f => (Run.parseBlkIndex f.name).map fun n => (n, f)) lw.trimmed k (sz k) (blk k) ∧
+      (w.verify = true → Run.verifyBlock coin lw.trimmed (blk k).toR k = .ok ()))
+    (hw0 : w.start = 0) (hne : o.start ≤ ld.maxH) (hle : ld.maxH ≤ lw.maxH)
+    (hcbo : o.callback = "csvdump") (hcbw : w.callback = "csvdump") :
+    let eb := fun k => (⟨k, sz k, (blk k).toR⟩ : CB.EBlock)
+    (Run.run o key kvs files).exit = 0 ∧ (Run.run w key kvs files).exit = 0 ∧
+    (Run.run w key kvs files).files.map (·.2) =
+      List.zipWith (· ++ ·)
+        (List.zipWith (· ++ ·) (csvRows coin.version ((List.range' 0 o.start).map eb)) ((Run.run o key kvs files).files.map (·.2)))
+        (csvRows coin.version ((List.range' (ld.maxH + 1) (lw.maxH - ld.maxH)).map eb)) := by
+  intro eb
+  obtain ⟨ho0, _, hfo, _⟩ := Run.run_stored o key kvs files coin ld hco hldo hkey sz blk hso hne (by simp [Run.callbackPanics, hcbo])
+  obtain ⟨hw0', _, hfw, _⟩ := Run.run_stored w key kvs files coin lw hcw hldw hkey sz blk hsw (by omega) (by simp [Run.callbackPanics, hcbw])
+  refine ⟨ho0, hw0', ?_⟩
+  rw [hfo, hfw]
+  simp only [Run.callbackOut, hcbo, hcbw, csvRows_files, hw0]
+  have h3 : ∀ a b c : Nat, List.range' 0 (a + b + c) = List.range' 0 a ++ List.range' a b ++ List.range' (a + b) c := by
+    intro a b c
+    have e1 := @List.range'_append_1 0 a b
+    have e2 := @List.range'_append_1 0 (a + b) c
+    rw [Nat.zero_add] at e1 e2
+    rw [e1, e2]
+  have hsplit : List.range' 0 (lw.maxH + 1 - 0) =
+      List.range' 0 o.start ++ List.range' o.start (ld.maxH + 1 - o.start) ++ List.range' (ld.maxH + 1) (lw.maxH - ld.maxH) := by
+    have := h3 o.start (ld.maxH + 1 - o.start) (lw.maxH - ld.maxH)
+    have e1 : o.start + (ld.maxH + 1 - o.start) + (lw.maxH - ld.maxH) = lw.maxH + 1 - 0 := by omega
+    have e2 : o.start + (ld.maxH + 1 - o.start) = ld.maxH + 1 := by omega
+    rw [e1, e2] at this
+    exact this
+  rw [hsplit, List.map_append, List.map_append]
+  simp [csvRows, csvFiles, List.append_assoc, Function.comp_def, List.flatMap_append, eb]
+
+
+/-- **whole-run slice law (opreturn).**  Same setting: the lines printed for the whole chain are
+    `lines of the heights below the range ++ the lines of the ranged run ++ lines of the heights above it` -/
+theorem range_run_is_slice_opreturn (o w : Run.Opts) (key : Option W.Bytes) (kvs : List (W.Bytes × W.Bytes)) (files : List Run.BlkFile)
+    (coin : Run.Coin) (ld lw : Run.Loaded) (hco : Run.coinOf o.coin = some coin) (hcw : Run.coinOf w.coin = some coin)
+    (hldo : Run.loadIndex o kvs = .ok ld) (hldw : Run.loadIndex w kvs = .ok lw)
+    (hkey : key ≠ some []) (sz : Nat → Nat) (blk : Nat → W.Block)
+    (hso : ∀ k, o.start ≤ k → k < o.start + (ld.maxH + 1 - o.start) →
+      Run.Stored coin key (files.filterMap fun f => (Run.parseBlkIndex f.name).map fun n => (n, f)) ld.trimmed k (sz k) (blk k) ∧
+      (o.verify = true → Run.verifyBlock coin ld.trimmed (blk k).toR k = .ok ()))
+    (hsw : ∀ k, w.start ≤ k → k < w.start + (lw.maxH + 1 - w.start) →
+      Run.Stored coin key (files.filterMap fun f => (Run.parseBlkIndex f.name).map fun n => (n, f)) lw.trimmed k (sz k) (blk k) ∧
+      (w.verify = true → Run.verifyBlock coin lw.trimmed (blk k).toR k = .ok ()))
+    (hw0 : w.start = 0) (hne : o.start ≤ ld.maxH) (hle : ld.maxH ≤ lw.maxH)
+    (hcbo : o.callback = "opreturn") (hcbw : w.callback = "opreturn") :
+    let eb := fun k => (⟨k, sz k, (blk k).toR⟩ : CB.EBlock)
+    (Run.run w key kvs files).stdout =
+      CB.opreturnLines coin.version ((List.range' 0 o.start).map eb) ++ (Run.run o key kvs files).stdout ++
+      CB.opreturnLines coin.version ((List.range' (ld.maxH + 1) (lw.maxH - ld.maxH)).map eb) := by
+  intro eb
+  obtain ⟨_, _, _, hoo⟩ := Run.run_stored o key kvs files coin ld hco hldo hkey sz blk hso hne (by simp [Run.callbackPanics, hcbo])
+  obtain ⟨_, _, _, how⟩ := Run.run_stored w key kvs files coin lw hcw hldw hkey sz blk hsw (by omega) (by simp [Run.callbackPanics, hcbw])
+  rw [hoo, how]
+  simp only [Run.callbackOut, hcbo, hcbw, hw0]
+  have h3 : ∀ a b c : Nat, List.range' 0 (a + b + c) = List.range' 0 a ++ List.range' a b ++ List.range' (a + b) c := by
+    intro a b c
+    have e1 := @List.range'_append_1 0 a b
+    have e2 := @List.range'_append_1 0 (a + b) c
+    rw [Nat.zero_add] at e1 e2
+    rw [e1, e2]
+  have hsplit : List.range' 0 (lw.maxH + 1 - 0) =
+      List.range' 0 o.start ++ List.range' o.start (ld.maxH + 1 - o.start) ++ List.range' (ld.maxH + 1) (lw.maxH - ld.maxH) := by
+    have := h3 o.start (ld.maxH + 1 - o.start) (lw.maxH - ld.maxH)
+    have e1 : o.start + (ld.maxH + 1 - o.start) + (lw.maxH - ld.maxH) = lw.maxH + 1 - 0 := by omega
+    have e2 : o.start + (ld.maxH + 1 - o.start) = ld.maxH + 1 := by omega
+    rw [e1, e2] at this
+    exact this
+  rw [hsplit, List.map_append, List.map_append]
+  simp [CB.opreturnLines, List.flatMap_append, eb]
+
 end Rbp.Props.C02
